@@ -5,6 +5,11 @@
  *             p_socket_get_local_address / p_socket_get_remote_address of the accepted socket ; free all
  *   SCRIPT 3: datagram socket with a queued datagram: p_socket_receive_from (allocates the source address),
  *             p_socket_get_local_address ; free all
+ *   SCRIPT 4: p_socket_new ; optionally p_socket_close ; p_socket_free - with close() INTERRUPTED: at most once per
+ *             library call the kernel releases the descriptor and reports -1/EINTR (Linux semantics).  Known
+ *             finding C20_close_eintr_reclose (open): a p_socket_close that failed this way leaves the socket
+ *             "open", so p_socket_free (or a second p_socket_close) closes the same NUMBER again; while it is
+ *             open the main query interrupts only the close made by p_socket_free, the demo query (-DKF_DEMO) any.
  * Faults: the k-th allocation fails (only it, or it and all later ones: both symbolic)  [C18 and C20];
  *         with -DSYSFAIL=n additionally up to n of the system calls socket/fcntl/setsockopt/getsockopt/
  *         getsockname/getpeername/bind/listen/accept fail at symbolic points                     [C20].
@@ -110,6 +115,20 @@ void harness(void) {
   if (ra) p_socket_address_free(ra);
   if (addr) p_socket_address_free(addr);
   if (X) p_socket_free(X);
+#elif SCRIPT == 4
+  if (S != NULL && ND_BOOL()) {
+    const int fd = p_socket_get_fd(S);
+    vs_begin_call(0, 0);
+#if !defined(KF_OPEN_C20_close_eintr_reclose) || defined(KF_DEMO)
+    vs.close_eintr_budget = 1;
+#endif
+    pboolean ok = p_socket_close(S, &err);
+    if (ok) VASSERT(err == NULL && p_socket_is_closed(S) && p_socket_get_fd(S) == -1 && !VFD(open, fd), "closed");
+    else { VASSERT(vs.nclose_eintr > 0, "p_socket_close fails only when close() reported a failure"); failed_call(&err); }
+    VASSERT(!VFD(open, fd) && VFD(closes, fd) == 1, "the descriptor is released by the one close() in either case");
+  }
+  vs_begin_call(0, 0);
+  vs.close_eintr_budget = 1;       /* the close() made by p_socket_free may be interrupted */
 #else
   PSocketAddress *from = NULL, *la = NULL;
   if (S != NULL) {
@@ -141,6 +160,9 @@ void harness(void) {
   if (vm_failed >= 2) VWITNESS("two allocations failed");
 #if SYSFAIL > 0
   if (vs.nsysfail == SYSFAIL) VWITNESS("all system call failures used");
+#endif
+#if SCRIPT == 4
+  if (vs.nclose_eintr > 0) VWITNESS("a close() was interrupted");
 #endif
 #if SCRIPT == 2
   if (X == NULL && S != NULL && vm_failed > 0 && vs.nclose >= 2) VWITNESS("accept failed after the kernel handed out a descriptor");
